@@ -1,9 +1,9 @@
 #!/bin/bash
-# process_seed.sh <nn> <ID...>: confirm both seeds of sub-agent worktree /tmp/wt/c<nn> and run checks against them
-nn="$1"; shift
-for x in A B; do
-  n=c$nn-$(echo $x | tr A-Z a-z)
-  out=$(/verif/tools/confirm_seed.sh /tmp/wt/c$nn $x C$nn $n 2>&1 | tail -4)
+# process_seed.sh <root> <nn> <suffix> <letters> <ID...>: confirm the seeds of sub-agent worktree <root>/c<nn> and run checks against them
+root="$1"; nn="$2"; suf="$3"; letters="$4"; shift 4
+for x in $letters; do
+  n=c$nn-$suf$(echo $x | tr A-Z a-z)
+  out=$(/verif/tools/confirm_seed.sh $root/c$nn $x C$nn $n 2>&1 | tail -6)
   echo "$out" | tail -1
-  if echo "$out" | grep -q "^CONFIRMED"; then /verif/tools/try_seed.sh $n "$@" 2>&1 | grep -E "DETECTED|MISSED|SUITE|PATCH|CHECK-STATUS" | cut -c1-220; else echo "$out"; fi
+  if echo "$out" | grep -q "^CONFIRMED"; then /verif/tools/try_seed.sh $n "$@" 2>&1 | grep -E "DETECTED|MISSED|SUITE|PATCH|CHECK-STATUS" | cut -c1-240; else echo "$out"; fi
 done
